@@ -1,28 +1,80 @@
 //! C07: `kvarn_async::read::request` + `kvarn::application::Http1Body::read_to_bytes`
 //! over a scripted `AsyncRead` (read schedule), and `kvarn_utils::parse::headers` directly.
+//!
+//! A hang is an outcome here, never the fate of the harness process (`(L (N 3) (N why))`, see `Hang`):
+//! the scripted reader has a budget of consecutive reads it answers with 0 bytes, every call into kvarn runs under an
+//! asynchronous watchdog, and every case runs on a worker thread the main thread gives up on after `HARD_WATCHDOG`.
 use crate::xval::X;
 use bytes::Bytes;
 use std::collections::VecDeque;
+use std::future::Future;
 use std::pin::Pin;
-use std::sync::atomic::{AtomicUsize, Ordering};
-use std::sync::Arc;
+use std::sync::atomic::{AtomicBool, AtomicUsize, Ordering};
+use std::sync::{mpsc, Arc, Mutex};
 use std::task::{Context, Poll};
 use std::time::Duration;
 use tokio::io::{AsyncRead, ReadBuf};
+
+/// Why a case was given up as a hang: the `why` of the outcome `(L (N 3) (N why))`.
+#[derive(Clone, Copy, Debug, PartialEq, Eq)]
+pub enum Hang {
+    /// the code read again after `ZERO_BUDGET` consecutive reads that were answered with 0 bytes (end of file, an
+    /// exhausted 0-byte burst or an empty window): it spins on a connection that delivers nothing any more
+    Spin = 1,
+    /// a call into kvarn did not return within `WATCHDOG` (twice: the case is run again once before this is said)
+    Pending = 2,
+    /// the case did not come back from its worker thread within `HARD_WATCHDOG` (twice): it spins without reading
+    Stuck = 3,
+}
+impl Hang {
+    pub fn outcome(self) -> X {
+        X::L(vec![X::N(3), X::N(self as u128)])
+    }
+}
+fn is_hang(x: &X, why: Hang) -> bool {
+    matches!(x.as_l(), Some([X::N(3), X::N(w)]) if *w == why as u128)
+}
+
+/// A reader at end of file answers every read with 0 bytes, for ever.  Code that has been told so this many times in a
+/// row without a single byte in between and still reads is not going to stop (the readers under test stop at the first).
+const ZERO_BUDGET: usize = 1000;
+/// A call into kvarn over the scripted reader takes microseconds to milliseconds (the longest wait in it is the 60 ms
+/// cut of a stalled body): one that has not returned after this long never will.
+const WATCHDOG: Duration = Duration::from_secs(10);
+/// The same, seen from outside the worker thread (for code that neither returns nor yields).
+pub const HARD_WATCHDOG: Duration = Duration::from_secs(45);
+/// Worker threads that never came back are left behind spinning; after this many the rest of the shard is not executed
+/// (reported as harness trouble `(L (N 93) ..)`, which the driver runs again in fresh processes and counts).
+const MAX_STUCK: usize = 2;
+
+/// What the reader and the watchdog share: set when the budget of 0-byte reads is used up.
+#[derive(Default)]
+struct Spin {
+    flag: AtomicBool,
+    notify: tokio::sync::Notify,
+}
 
 /// Delivers `data` in the burst sizes of `sched`.  A burst that does not fit into the
 /// caller's window stays available for the next read (as bytes in a socket buffer do).
 /// When the data or the schedule is used up: `end_mode` 0 = EOF (0-byte read),
 /// 1 = pending for ever (a stalled peer), 2 = an I/O error.
+/// After `ZERO_BUDGET` consecutive 0-byte answers the next read raises `spin` and pends for ever.
 struct Scripted {
     data: Vec<u8>,
     pos: Arc<AtomicUsize>,
     sched: VecDeque<usize>,
     end_mode: u8,
+    zeros: usize,
+    spin: Arc<Spin>,
 }
-impl AsyncRead for Scripted {
-    fn poll_read(self: Pin<&mut Self>, _cx: &mut Context<'_>, buf: &mut ReadBuf<'_>) -> Poll<std::io::Result<()>> {
-        let me = self.get_mut();
+impl Scripted {
+    fn new(data: &[u8], sched: VecDeque<usize>, end_mode: u8) -> (Self, Arc<AtomicUsize>, Arc<Spin>) {
+        let pos = Arc::new(AtomicUsize::new(0));
+        let spin = Arc::new(Spin::default());
+        (Scripted { data: data.to_vec(), pos: Arc::clone(&pos), sched, end_mode, zeros: 0, spin: Arc::clone(&spin) }, pos, spin)
+    }
+    fn answer(&mut self, buf: &mut ReadBuf<'_>) -> Poll<std::io::Result<()>> {
+        let me = self;
         let room = buf.remaining();
         if room == 0 {
             return Poll::Ready(Ok(()));
@@ -47,10 +99,113 @@ impl AsyncRead for Scripted {
         Poll::Ready(Ok(()))
     }
 }
+impl AsyncRead for Scripted {
+    fn poll_read(self: Pin<&mut Self>, _cx: &mut Context<'_>, buf: &mut ReadBuf<'_>) -> Poll<std::io::Result<()>> {
+        let me = self.get_mut();
+        if me.spin.flag.load(Ordering::Relaxed) {
+            return Poll::Pending;
+        }
+        if me.zeros >= ZERO_BUDGET {
+            me.spin.flag.store(true, Ordering::Relaxed);
+            me.spin.notify.notify_one();
+            return Poll::Pending;
+        }
+        let before = buf.filled().len();
+        let res = me.answer(buf);
+        if matches!(res, Poll::Ready(Ok(()))) {
+            if buf.filled().len() == before {
+                me.zeros += 1;
+            } else {
+                me.zeros = 0;
+            }
+        }
+        res
+    }
+}
 
-fn runtime() -> &'static tokio::runtime::Runtime {
-    static RT: std::sync::OnceLock<tokio::runtime::Runtime> = std::sync::OnceLock::new();
-    RT.get_or_init(|| tokio::runtime::Builder::new_current_thread().enable_time().build().unwrap())
+/// One call into kvarn under the watchdog: its result, or why it was given up.
+async fn watch<T>(spin: &Spin, fut: impl Future<Output = T>) -> Result<T, Hang> {
+    let r = tokio::select! {
+        biased;
+        _ = spin.notify.notified() => Err(Hang::Spin),
+        r = tokio::time::timeout(WATCHDOG, fut) => r.map_err(|_| Hang::Pending),
+    };
+    if spin.flag.load(Ordering::Relaxed) {
+        return Err(Hang::Spin);
+    }
+    r
+}
+
+thread_local! {
+    /// one runtime per worker thread: a thread that is stuck inside `block_on` keeps its own
+    static RT: tokio::runtime::Runtime = tokio::runtime::Builder::new_current_thread().enable_time().build().unwrap();
+}
+fn block_on<F: Future>(f: F) -> F::Output {
+    RT.with(|rt| rt.block_on(f))
+}
+
+type Job = (fn(&X) -> X, X);
+pub struct Worker {
+    jobs: mpsc::Sender<Job>,
+    results: mpsc::Receiver<X>,
+}
+impl Worker {
+    fn start() -> Option<Worker> {
+        let (jobs, job_rx) = mpsc::channel::<Job>();
+        let (res_tx, results) = mpsc::channel::<X>();
+        std::thread::Builder::new()
+            .name("c07-case".into())
+            .spawn(move || {
+                for (f, x) in job_rx {
+                    if res_tx.send(crate::guarded(|| f(&x))).is_err() {
+                        return;
+                    }
+                }
+            })
+            .ok()?;
+        Some(Worker { jobs, results })
+    }
+}
+static STUCK: AtomicUsize = AtomicUsize::new(0);
+
+/// Runs `f(x)` on a worker thread and waits for it no longer than `limit`.  A worker that does not come back is left
+/// behind (a thread cannot be stopped) and replaced; the case is tried a second time before it is called stuck.
+pub fn on_worker(pool: &Mutex<Option<Worker>>, limit: Duration, f: fn(&X) -> X, x: &X) -> X {
+    let mut slot = pool.lock().unwrap_or_else(|e| e.into_inner());
+    for _attempt in 0..2 {
+        if STUCK.load(Ordering::Relaxed) >= MAX_STUCK {
+            return X::L(vec![X::N(93), X::b("not executed: worker threads of this process are stuck in earlier cases")]);
+        }
+        let w = match slot.take().or_else(Worker::start) {
+            Some(w) => w,
+            None => return X::L(vec![X::N(93), X::b("no worker thread")]),
+        };
+        if w.jobs.send((f, x.clone())).is_err() {
+            continue;
+        }
+        match w.results.recv_timeout(limit) {
+            Ok(r) => {
+                *slot = Some(w);
+                return r;
+            }
+            // a worker that died is replaced and the case run again; one that is still busy is left behind
+            Err(mpsc::RecvTimeoutError::Disconnected) => {}
+            Err(mpsc::RecvTimeoutError::Timeout) => {
+                STUCK.fetch_add(1, Ordering::Relaxed);
+            }
+        }
+    }
+    Hang::Stuck.outcome()
+}
+static POOL: Mutex<Option<Worker>> = Mutex::new(None);
+
+/// A case whose only trouble was time (`Hang::Pending`) is run once more before that is its outcome.
+fn twice(f: fn(&X) -> X, x: &X) -> X {
+    let r = f(x);
+    if is_hang(&r, Hang::Pending) {
+        return f(x);
+    }
+    r
 }
 
 fn parse_error_class(e: &kvarn_utils::parse::Error) -> u128 {
@@ -103,18 +258,20 @@ fn io_class(e: &std::io::Error) -> u128 {
 /// The body phase.  kvarn's own guard is a fixed 30 s `tokio::time::timeout` that maps to `TimedOut`; a reader that
 /// pends for ever would make every such case take 30 s, so the harness puts a 60 ms timeout around the call and reports
 /// the same class (the scripted reader never pends in any other situation, so nothing else can trip it).
-async fn body_phase(reader: Arc<tokio::sync::Mutex<Scripted>>, early: Bytes, content_length: usize, limit: usize) -> X {
+async fn body_phase(spin: &Spin, reader: Arc<tokio::sync::Mutex<Scripted>>, early: Bytes, content_length: usize, limit: usize) -> Result<X, Hang> {
     let mut body = kvarn::application::Http1Body::new(reader, early, content_length);
-    match tokio::time::timeout(Duration::from_millis(60), body.read_to_bytes(limit)).await {
+    Ok(match watch(spin, tokio::time::timeout(CUT, body.read_to_bytes(limit))).await? {
         Err(_) => X::err(20),
         Ok(Err(e)) => X::err(io_class(&e)),
         Ok(Ok(b)) => X::ok(X::b(&b)),
-    }
+    })
 }
+const CUT: Duration = Duration::from_millis(60);
 
 /// input: (L https (L [default_host]) max_len end_mode stream (L burst..) limit [structured request, used by the spec only])
 /// output: outcome of (L method path (L [query]) version headers (L [authority]) early body_outcome consumed)
 /// (`consumed` = bytes taken from the connection, reported when the body was read without error)
+/// | (L (N 3) (N why)) = a hang (see `Hang`)
 fn request(x: &X) -> X {
     let l = match x.as_l() { Some(l) if l.len() == 7 || l.len() == 8 => l, _ => return X::bad() };
     let (https, dh, max_len, end_mode, stream, sched, limit) = match (
@@ -123,19 +280,22 @@ fn request(x: &X) -> X {
         (Some(a), Some(b), Some(c), Some(d), Some(e), Some(f), Some(g)) => (a, b.and_then(X::as_b), c as usize, d as u8, e, f, g as usize),
         _ => return X::bad(),
     };
-    let pos = Arc::new(AtomicUsize::new(0));
-    let reader = Scripted { data: stream.to_vec(), pos: Arc::clone(&pos), sched, end_mode };
+    let (reader, pos, spin) = Scripted::new(stream, sched, end_mode);
     let reader = Arc::new(tokio::sync::Mutex::new(reader));
-    runtime().block_on(async move {
+    block_on(async move {
         let parsed = {
             let lock = reader.lock().await;
-            kvarn_async::read::request(lock, max_len, dh, if https { "https" } else { "http" }, Duration::from_millis(15)).await
+            watch(&spin, kvarn_async::read::request(lock, max_len, dh, if https { "https" } else { "http" }, Duration::from_millis(15))).await
         };
         match parsed {
-            Err(e) => X::err(parse_error_class(&e)),
-            Ok((req, early)) => {
+            Err(hang) => hang.outcome(),
+            Ok(Err(e)) => X::err(parse_error_class(&e)),
+            Ok(Ok((req, early))) => {
                 let cl = kvarn_utils::get_body_length_request(&req);
-                let body = body_phase(Arc::clone(&reader), early.clone(), cl, limit).await;
+                let body = match body_phase(&spin, Arc::clone(&reader), early.clone(), cl, limit).await {
+                    Err(hang) => return hang.outcome(),
+                    Ok(b) => b,
+                };
                 let body_ok = matches!(body.as_l(), Some([X::N(0), _]));
                 X::ok(X::L(vec![
                     X::b(req.method().as_str()),
@@ -153,19 +313,21 @@ fn request(x: &X) -> X {
     })
 }
 
-/// input: (L early content_length limit end_mode stream (L burst..)); output: (L body_outcome consumed)
+/// input: (L early content_length limit end_mode stream (L burst..)); output: (L body_outcome consumed) | (L (N 3) (N why)) = a hang
 fn body(x: &X) -> X {
     let l = match x.as_l() { Some(l) if l.len() == 6 => l, _ => return X::bad() };
     let (early, cl, limit, end_mode, stream, sched) = match (l[0].as_b(), l[1].as_n(), l[2].as_n(), l[3].as_n(), l[4].as_b(), sched_of(&l[5])) {
         (Some(a), Some(b), Some(c), Some(d), Some(e), Some(f)) => (a, b as usize, c as usize, d as u8, e, f),
         _ => return X::bad(),
     };
-    let pos = Arc::new(AtomicUsize::new(0));
-    let reader = Scripted { data: stream.to_vec(), pos: Arc::clone(&pos), sched, end_mode };
+    let (reader, pos, spin) = Scripted::new(stream, sched, end_mode);
     let reader = Arc::new(tokio::sync::Mutex::new(reader));
     let early = Bytes::copy_from_slice(early);
-    runtime().block_on(async move {
-        let out = body_phase(reader, early, cl, limit).await;
+    block_on(async move {
+        let out = match body_phase(&spin, reader, early, cl, limit).await {
+            Err(hang) => return hang.outcome(),
+            Ok(b) => b,
+        };
         let ok = matches!(out.as_l(), Some([X::N(0), _]));
         X::L(vec![out, X::n(if ok { pos.load(Ordering::Relaxed) } else { 0 })])
     })
@@ -189,6 +351,7 @@ fn headers(x: &X) -> X {
 /// `read(&mut buf[..window])` | (L (N limit)): `read_to_bytes(limit)` | (L): `drain()`.
 /// output: (L (L outcome..) consumed): one outcome per executed op (the first error ends the run), `consumed` = bytes
 /// taken from the connection (0 after an error).  A read that pends for ever is cut off after 60 ms and reported as TimedOut (as in `body_phase`).
+/// | (L (N 3) (N why)) = one of the calls hung (see `Hang`)
 fn poll(x: &X) -> X {
     use tokio::io::AsyncReadExt;
     let l = match x.as_l() { Some(l) if l.len() == 6 => l, _ => return X::bad() };
@@ -196,15 +359,14 @@ fn poll(x: &X) -> X {
         (Some(a), Some(b), Some(c), Some(d), Some(e), Some(f)) => (a, b as usize, c as u8, d, e, f),
         _ => return X::bad(),
     };
-    let pos = Arc::new(AtomicUsize::new(0));
-    let reader = Scripted { data: stream.to_vec(), pos: Arc::clone(&pos), sched, end_mode };
+    let (reader, pos, spin) = Scripted::new(stream, sched, end_mode);
     let reader = Arc::new(tokio::sync::Mutex::new(reader));
     let early = Bytes::copy_from_slice(early);
     let ops = ops.to_vec();
-    runtime().block_on(async move {
+    block_on(async move {
         let mut body = kvarn::application::Http1Body::new(reader, early, cl);
         let mut outs = Vec::new();
-        let cut = Duration::from_millis(60);
+        let cut = CUT;
         for op in &ops {
             let out = match op {
                 X::N(w) => {
@@ -212,22 +374,25 @@ fn poll(x: &X) -> X {
                         return X::bad();
                     }
                     let mut buf = vec![0_u8; *w as usize];
-                    match tokio::time::timeout(cut, body.read(&mut buf)).await {
-                        Err(_) => X::err(20),
-                        Ok(Err(e)) => X::err(io_class(&e)),
-                        Ok(Ok(n)) => X::ok(X::b(&buf[..n])),
+                    match watch(&spin, tokio::time::timeout(cut, body.read(&mut buf))).await {
+                        Err(hang) => return hang.outcome(),
+                        Ok(Err(_)) => X::err(20),
+                        Ok(Ok(Err(e))) => X::err(io_class(&e)),
+                        Ok(Ok(Ok(n))) => X::ok(X::b(&buf[..n])),
                     }
                 }
-                X::L(v) if v.is_empty() => match tokio::time::timeout(cut, body.drain()).await {
-                    Err(_) => X::err(20),
-                    Ok(Err(e)) => X::err(io_class(&e)),
-                    Ok(Ok(())) => X::ok(X::b(b"")),
+                X::L(v) if v.is_empty() => match watch(&spin, tokio::time::timeout(cut, body.drain())).await {
+                    Err(hang) => return hang.outcome(),
+                    Ok(Err(_)) => X::err(20),
+                    Ok(Ok(Err(e))) => X::err(io_class(&e)),
+                    Ok(Ok(Ok(()))) => X::ok(X::b(b"")),
                 },
                 X::L(v) => match v.as_slice() {
-                    [X::N(limit)] => match tokio::time::timeout(cut, body.read_to_bytes(*limit as usize)).await {
-                        Err(_) => X::err(20),
-                        Ok(Err(e)) => X::err(io_class(&e)),
-                        Ok(Ok(b)) => X::ok(X::b(&b)),
+                    [X::N(limit)] => match watch(&spin, tokio::time::timeout(cut, body.read_to_bytes(*limit as usize))).await {
+                        Err(hang) => return hang.outcome(),
+                        Ok(Err(_)) => X::err(20),
+                        Ok(Ok(Err(e))) => X::err(io_class(&e)),
+                        Ok(Ok(Ok(b))) => X::ok(X::b(&b)),
                     },
                     _ => return X::bad(),
                 },
@@ -247,9 +412,10 @@ fn poll(x: &X) -> X {
 
 pub fn dispatch(comp: &str, x: &X) -> Option<X> {
     Some(match comp {
-        "h1.request" => request(x),
-        "h1.body" => body(x),
-        "h1.poll" => poll(x),
+        // on a worker thread, under the watchdogs (a hang is the outcome (L (N 3) (N why)))
+        "h1.request" => on_worker(&POOL, HARD_WATCHDOG, |x| twice(request, x), x),
+        "h1.body" => on_worker(&POOL, HARD_WATCHDOG, |x| twice(body, x), x),
+        "h1.poll" => on_worker(&POOL, HARD_WATCHDOG, |x| twice(poll, x), x),
         "h1.headers" => headers(x),
         _ => return None,
     })
